@@ -123,6 +123,17 @@ func (p *PKI) reloadCerts(c *config.C, initial bool) *util.ContextualError {
 	}
 
 	if currentState != nil {
+		// The per-version checks below never compare a v1 cert with a v2 cert, the curve must not change when
+		// the reload switches certificate versions either
+		oldCurve, newCurve := currentState.GetDefaultCertificate().Curve(), newState.GetDefaultCertificate().Curve()
+		if oldCurve != newCurve {
+			return util.NewContextualError(
+				"Curve in new cert was different from old",
+				m{"new_curve": newCurve, "old_curve": oldCurve},
+				nil,
+			)
+		}
+
 		if newState.v1Cert != nil {
 			if currentState.v1Cert == nil {
 				//adding certs is fine, actually. Networks-in-common confirmed in newCertState().
